@@ -692,6 +692,10 @@ class Extractor:
         vis = 'closed' if L.get('closed') else 'open'
         out.append(vis + ' spec fn spec_accepts(little: bool, class: Class, d: Seq<u8>, b: int) -> bool { match class { Class::ELF32 => %s, Class::ELF64 => %s } }' % (accepts('ELF32'), accepts('ELF64')))
         out.append(vis + ' spec fn spec_decode(little: bool, class: Class, d: Seq<u8>, b: int) -> Self {\n        match class {\n            Class::ELF32 => %s,\n            Class::ELF64 => %s,\n        }\n    }' % (decode('ELF32'), decode('ELF64')))
+        # locality: decoding inside a sub-buffer == decoding at the shifted offset of the whole buffer
+        def calls(cls):
+            return ' '.join('lemma_fld_sub(little, d, s, e, b + %d, %d);' % (r[1], r[2]) for r in disk(cls))
+        out.append('proof fn lemma_decode_sub(little: bool, class: Class, d: Seq<u8>, s: int, e: int, b: int) {\n        match class { Class::ELF32 => { %s } Class::ELF64 => { %s } }\n    }' % (calls('ELF32'), calls('ELF64')))
         return '\n    '.join(out)
 
     # ---- one module
